@@ -132,6 +132,32 @@ def strategy(draw):
     return dict(f=f, curves=curves, steps=steps, descending=draw(gen.chance(5)))
 
 
+BIG = {"quick": 16, "thorough": 160}
+
+
+@st.composite
+def strategy_big(draw):
+    """Finely sampled curves: 2^9 .. 2^14 frequencies (a raw FFT grid instead of a few dozen centre frequencies)."""
+    case = draw(strategy())
+    n0 = len(case["f"])
+    n = draw(gen.big_size(2 ** 9, 2 ** 14))
+    f0, f1 = case["f"][0], case["f"][-1]
+    fnew = np.geomspace(f0, f1, n) if draw(st.booleans()) else np.linspace(f0, f1, n)
+    old = np.array(case["f"])
+
+    def remap(v):
+        # a limit keeps its relation to the grid: on a sample stays on a sample, between samples stays between
+        if v is None or not math.isfinite(v) or v <= f0 or v >= f1:
+            return v
+        i = int(np.argmin(np.abs(old - v)))
+        j = int(round(i * (n - 1) / max(n0 - 1, 1)))
+        return float(fnew[j]) if old[i] == v else float(0.5 * (fnew[min(j, n - 2)] + fnew[min(j, n - 2) + 1]))
+    for stp in case["steps"]:
+        stp["range"] = [remap(v) for v in stp["range"]]
+    case.update(f=[float(v) for v in fnew], curves=case["curves"][:4], big=True)
+    return case
+
+
 def _in_sets(f, a, lo_b, hi_b, mirror=False):
     """MUST / MAY sets of run representatives for the range (lo_b, hi_b).  ``mirror``: the curve is stored in
     descending order, so the representative of an even-length plateau is its other middle sample."""
@@ -194,6 +220,8 @@ def check_case(case):
     fs_, As_ = (f[::-1].copy(), A[:, ::-1].copy()) if desc else (f, A)      # as stored in the objects; the oracle works on (f, A)
     if desc:
         labels.append("descending-grid")
+    if case.get("big"):
+        labels.append("big-2^%d-frequencies" % int(math.log2(n)))
     singles = [hv.HvsrCurve(fs_, a) for a in As_]
     trad = hv.HvsrTraditional(fs_, As_)
     azi = hv.HvsrAzimuthal([hv.HvsrTraditional(fs_, As_), hv.HvsrTraditional(fs_, As_[::-1])], [0.0, 90.0])
